@@ -34,6 +34,8 @@ VERIF_CLASSES = [
     (r'^recommendation not met', None),          # ignored (spec-level recommends)
     (r'^cannot show .* is exhaustive', 'unreachable'),
     (r'^possible truncation', 'overflow'),
+    (r'^constructed value may fail to meet its declared type invariant', 'type-invariant'),
+    (r'^cannot prove .*type invariant', 'type-invariant'),
 ]
 UNDECIDED_PATTERNS = [r'[Rr]esource limit', r'rlimit', r'timed? ?out', r'not supported', r'does not (yet )?support',
                       r'unsupported']
@@ -44,6 +46,25 @@ def slug(s, n=48):
     s = R.norm_ws(s)
     s = re.sub(r'[^A-Za-z0-9_+\-*/<>=!.\[\]()&|:]+', '_', s)
     return s[:n].strip('_') or 'x'
+
+
+def unexpand(sp, fname):
+    """A span inside a macro expansion (matches!, vec!, ..) is reported in the macro's file; follow the expansion chain
+    back to the invocation in the generated unit so the failure is attributed to the function that contains it."""
+    cur = sp
+    for _ in range(8):
+        if os.path.basename(cur.get('file_name', '')) == fname:
+            break
+        ex = cur.get('expansion')
+        if not ex or not ex.get('span'):
+            return sp
+        cur = ex['span']
+    if cur is sp or os.path.basename(cur.get('file_name', '')) != fname:
+        return sp
+    out = dict(cur)
+    out['label'] = sp.get('label')
+    out['is_primary'] = sp.get('is_primary')
+    return out
 
 
 def enclosing_fns(text):
@@ -185,7 +206,7 @@ def run_unit(unit, variant=None, scratch=None, rlimit=None, keep=False, extra_ar
                 break
             res.undecided_reason = why
             continue
-        spans = dg.get('spans', [])
+        spans = [unexpand(sp, fname) for sp in dg.get('spans', [])]
         site = None
         clause = None
         for sp in spans:
@@ -220,8 +241,13 @@ def run_unit(unit, variant=None, scratch=None, rlimit=None, keep=False, extra_ar
             else:
                 # a vstd precondition
                 if kind == 'requires':
+                    cfile = clause.get('file_name', '')
                     if re.search(r'len\(\)|\.len\b|< *self', clause_text) and re.search(r'\[', site_text):
                         kind = 'bounds'
+                    elif re.search(r'std_specs/(vec|slice|vecdeque)\.rs|/(slice|array)\.rs', cfile) and re.search(r'\w\s*\[[^\]]*\]\s*$', site_text.strip()):
+                        kind = 'bounds'              # the index precondition of Vec / slice / VecDeque
+                    elif re.search(r'std_specs/(option|result)\.rs', cfile) and re.search(r'\.(unwrap|expect)\s*\(', site_text):
+                        kind = 'unreachable'         # unwrap()/expect() on a value not proved Some/Ok: a reachable panic
         if kind == 'requires' and ('unreachable!' in site_text or 'unreached' in (clause_text or '')):
             kind = 'unreachable'
         if kind == 'requires' and clause_text and 'false' == clause_text.strip():
